@@ -153,8 +153,14 @@ template<typename K> static I deser_both(Reg& g, const std::vector<uint8_t>& v, 
     try { b.reset(new S(S::deserialize(is))); consumed = (long)is.tellg(); } catch (const std::exception&) {}
   }
   if (a && b) {
+    bool same = a->get_n() == b->get_n();
+    if (same && !a->is_empty()) { // queries on copies, before serialize() sorts the base buffers
+      S ca(*a), cb(*b);
+      auto qa = ca.get_quantile(0.5), qb = cb.get_quantile(0.5);
+      same = K::dec(qa) == K::dec(qb) && ca.get_rank(qa) == cb.get_rank(qa) && ca.get_rank(ca.get_max_item(), false) == cb.get_rank(cb.get_max_item(), false);
+    }
     auto x = a->serialize(); auto y = b->serialize();
-    o.F((x.size() == y.size() && memcmp(x.data(), y.data(), x.size()) == 0 && a->get_n() == b->get_n()) ? 1 : 0);
+    o.F((same && x.size() == y.size() && memcmp(x.data(), y.data(), x.size()) == 0) ? 1 : 0);
     o.F((I)consumed);
     Sel<K>::p(g) = std::move(a);
     return 1;
